@@ -2,7 +2,9 @@ package c06
 
 import (
 	"os"
+	"strings"
 	"testing"
+	"unicode/utf8"
 
 	"pgregory.net/rapid"
 
@@ -17,15 +19,31 @@ func TestMain(m *testing.M) { os.Exit(ev.Main(ID, m)) }
 
 func TestReplay(t *testing.T) { prop.Replay(t, nil) }
 
-var tokens = append(append([]string{}, gen.TokHTML...), "\\", "\\n", "\\\"", "\t", "\v", "\x1b", "\x7f")
+var tokens = func() []string {
+	out := []string{"\\", "\\n", "\\\"", "\t", "\v", "\x1b", "\x7f"}
+	for _, tk := range gen.TokHTML {
+		if !strings.Contains(tk, "\x00") { // html/template replaces NUL by U+FFFD by design: outside the input domain
+			out = append(out, tk)
+		}
+	}
+	return out
+}()
 
 // strOrHot: short token strings, and now and then a longer one dense with characters that become entities.
 func strOrHot() *rapid.Generator[gen.Item] {
 	str := gen.StrItem(tokens, 4)
 	hot := gen.ExpandingString([]string{"<", "&", "\"", "'", ">", "&amp;", "\u00a0"})
+	anyItem := gen.AnyItem(tokens, 1)
 	return rapid.Custom(func(t *rapid.T) gen.Item {
 		if gen.Rarely(t, "hot", 12) {
 			return gen.S(hot.Draw(t, "hot-text"))
+		}
+		if rapid.IntRange(0, 5).Draw(t, "any?") == 0 {
+			// any kind of item (its text form is what must come out), as long as that text is valid UTF-8 without NUL
+			it := anyItem.Draw(t, "any")
+			if txt := gen.TextForm(it, gen.Materialise(it)); utf8.ValidString(txt) && !strings.Contains(txt, "\x00") {
+				return it
+			}
 		}
 		return str.Draw(t, "str")
 	})
@@ -37,7 +55,7 @@ func caseGen() *rapid.Generator[Case] {
 		max = 14
 	}
 	sg := gen.ScriptGen(gen.ScriptOpts{
-		Item:       strOrHot(),
+		AllowProps: true, AllowRowErr: true, Item: strOrHot(),
 		MinOps:     0,
 		MaxOps:     max,
 		MaxCells:   4,
